@@ -86,7 +86,49 @@ func checkMalformed(data []byte) error {
 	return nil
 }
 
+// checkCodecPair: encodings of two handles that are both kept must stay independent of each other.
+func checkCodecPair(id1, gen1, id2, gen2 uint32) error {
+	mk := func(id, gen uint32) (ecs.Entity, []byte) {
+		raw := make([]byte, 8)
+		binary.BigEndian.PutUint32(raw[0:4], id)
+		binary.BigEndian.PutUint32(raw[4:8], gen)
+		var e ecs.Entity
+		_ = e.UnmarshalBinary(raw)
+		return e, raw
+	}
+	e1, raw1 := mk(id1, gen1)
+	e2, raw2 := mk(id2, gen2)
+	b1, _ := e1.MarshalBinary()
+	j1, _ := json.Marshal(e1)
+	a1, _ := e1.AppendBinary(nil)
+	b2, _ := e2.MarshalBinary()
+	j2, _ := json.Marshal(e2)
+	a2, _ := e2.AppendBinary(nil)
+	if !bytes.Equal(b1, raw1) || !bytes.Equal(b2, raw2) || !bytes.Equal(a1, raw1) || !bytes.Equal(a2, raw2) {
+		return fmt.Errorf("binary encodings of %v and %v kept side by side: %x %x (append: %x %x), want %x %x", e1, e2, b1, b2, a1, a2, raw1, raw2)
+	}
+	if string(j1) != fmt.Sprintf("[%d,%d]", id1, gen1) || string(j2) != fmt.Sprintf("[%d,%d]", id2, gen2) {
+		return fmt.Errorf("JSON encodings of %v and %v kept side by side: %s %s", e1, e2, j1, j2)
+	}
+	var d1, d2 ecs.Entity
+	if err := d1.UnmarshalBinary(b1); err != nil || d1 != e1 {
+		return fmt.Errorf("first handle decodes to %v, want %v", d1, e1)
+	}
+	if err := d2.UnmarshalBinary(b2); err != nil || d2 != e2 || d1 != e1 {
+		return fmt.Errorf("second handle decodes to %v (first now %v), want %v %v", d2, d1, e2, e1)
+	}
+	return nil
+}
+
 func runCodecs(t *testing.T, st *RunStats) {
+	pairsKept := 0
+	rapid.Check(t, func(rt *rapid.T) {
+		if err := checkCodecPair(u32.Draw(rt, "id1"), u32.Draw(rt, "gen1"), u32.Draw(rt, "id2"), u32.Draw(rt, "gen2")); err != nil {
+			rt.Fatalf("VIOLATION-CASE property=C17 sig=codec|independent\n%v", err)
+		}
+		pairsKept++
+	})
+	st.Classes["codec-two-handles-kept"] += pairsKept
 	pairs, nontrivial := 0, 0
 	rapid.Check(t, func(rt *rapid.T) {
 		id, gen := u32.Draw(rt, "id"), u32.Draw(rt, "gen")
